@@ -110,6 +110,18 @@ theorem remove_reactions_list_spec (orphans : Bool) (rs : List Id) (y : Sys) (g 
     Step y (removeRxns orphans rs y) ∧ (∀ r ∈ rs, (removeRxns orphans rs y).s.hasR r = false) ∧
     (∀ x, x ∉ rs → (removeRxns orphans rs y).s.hasR x = y.s.hasR x) := removeRxns_step orphans rs y g
 
+/-- `reaction.gene_reaction_rule = rule` (outside a context) does what it documents: the reaction's genes are exactly the genes of the new rule, each
+of them is in the model (created if need be) and lists the reaction, no gene leaves the model, other reactions keep rule and genes, and nothing but
+rules and genes changes; the cross-references stay consistent (`Good`) -/
+theorem set_rule_spec (s : St) (g : Good s) (r : Id) (hr : s.hasR r = true) (rule : Option GPRM.G) :
+    let s' := setRuleRaw s r rule
+    Good s' ∧
+    s'.rule r = rule ∧ (∀ gg, s'.rg r gg = true ↔ gg ∈ genesOpt rule) ∧ (∀ gg, gg ∈ genesOpt rule → s'.hasG gg = true ∧ s'.gr gg r = true) ∧
+    (∀ gg, s.hasG gg = true → s'.hasG gg = true) ∧ (∀ x, x ≠ r → s'.rule x = s.rule x ∧ s'.rg x = s.rg x) ∧
+    s'.hasR = s.hasR ∧ s'.hasM = s.hasM ∧ s'.lb = s.lb ∧ s'.ub = s.ub ∧ s'.st = s.st ∧ s'.mr = s.mr ∧
+    s'.hasV = s.hasV ∧ s'.vlb = s.vlb ∧ s'.vub = s.vub ∧ s'.hasC = s.hasC ∧ s'.co = s.co ∧ s'.obj = s.obj ∧ s'.dirMax = s.dirMax :=
+  ⟨setRuleRaw_good g r hr rule, setRuleRaw_effect s r rule⟩
+
 /-- `reaction *= k` (k ≠ 0) does what it documents: it never raises, every coefficient of the reaction is multiplied by `k`, a negative `k` swaps
 and negates the bounds, other reactions keep coefficients and bounds, membership, rules and objective stay; cross-references and solver stay
 consistent and the enclosing context takes it back -/
